@@ -136,6 +136,15 @@ var c14Objects = []struct{ name, decl string }{
 	{"S.G", ""}, {"(*S).G", ""},
 	{"ext.hidden", ""}, {"ext.Missing", ""}, {"nopkg.F", ""}, {"a.b.c", ""}, {"ext.EInt", ""}, {"ext", ""},
 	{"len", ""}, {"error", ""}, {"nil", ""}, {"Convergen", ""}, {"Conv", ""},
+	// objects that HAVE a function type without being declared functions
+	{"FVHook", "var FVHook = func(d *D, s *S) {}\n"},
+	{"FVHookErr", "var FVHookErr = func(d *D, s *S) error { return nil }\n"},
+	{"FVConv", "var FVConv = func(i int) int { return i }\n"},
+	{"FVNil", "var FVNil func(d *D, s *S)\n"},
+	{"TFunc", "type TFunc func(d *D, s *S)\n"},
+	{"KFunc", "const KFunc = 1\n\nfunc init() { _ = KFunc }\n"},
+	{"ext.FV", ""}, {"ext.FVHook", ""},
+	{"SV.G", "var SV S\n"},
 }
 
 func c14FuncShapes() []struct{ name, decl string } {
